@@ -51,7 +51,7 @@ def world() -> Dict[Tuple[str, str], R]:
     for m, q in [(MOD, "User"), (MOD, "Outer"), (MOD, "Outer.Inner"), (MOD, "NoneTypeHolder"), ("utils", "A"), ("my.utils", "B"), ("my.utils", "A"),
                  ("foo", "Baz"), ("barfoo", "Qux"), ("mytyping", "X"), ("pkg.other", "Thing"), ("pkg.other", "Outer"), ("pkg.other", "Outer.Deep"), ("pkg.other", "Outer.Deep.Deeper"), (MOD, "Outer.Inner.Core"),
                  ("_io", "StringIO"), ("pkg", "mod"), ("collections", "OrderedDict"), ("pkg.other", "List"), (MOD, "Set"), ("pkg.other", "Union"),
-                 ("pkg.other", "Movie"), ("pkg.other", "UserId"), ("ledger", "ledger"), ("ledger", "ledger.Entry"), ("foo", "Inner"), ("barmod", "foo"), ("barmod", "foo.Inner")]:
+                 ("pkg.other", "Movie"), ("pkg.other", "UserId"), ("ui", "Window"), ("ins", "Policy"), ("ledger", "ledger"), ("ledger", "ledger.Entry"), ("foo", "Inner"), ("barmod", "foo"), ("barmod", "foo.Inner")]:
         add(cls(m, q))
     w[("io", "StringIO")] = w[("_io", "StringIO")]
     return w
@@ -99,6 +99,9 @@ def universe() -> List[Tuple[str, V]]:
         # what a source annotation can be besides a class or a typing construct (kept in the stub under the default strategy)
         ("NewType of another module (a source annotation)", newtype("UserId", "pkg.other", INT)),
         ("List[NewType of another module]", gen("List", newtype("UserId", "pkg.other", INT))),
+        # modules whose short names happen to be fragments of other words ("ui" and "ins" occur inside "builtins", "t" inside "typing")
+        ("class of a module called ui", C("ui", "Window")), ("Dict[str, class of a module called ins]", gen("Dict", STR, C("ins", "Policy"))),
+        ("TypedDict with a field of a class of module ui", anon_td({"owner": C("ui", "Window")})),
         # a class named like its module (datetime.datetime, array.array) with a nested class; a class named like ANOTHER imported module
         ("class nested in a class that is named like its module", C("ledger", "ledger.Entry")), ("Optional[class nested in a class named like its module]", gen("Union", C("ledger", "ledger.Entry"), NONE_T)),
         ("class nested in a class named like another imported module", gen("Tuple", C("barmod", "foo.Inner"), C("foo", "Baz"))),
